@@ -63,7 +63,7 @@ theorem inv_lay {s s' : State} {l a : Nat} (hi : Inv s) (h : step s (.lay l a) =
           · rename_i p2 hrel
             obtain ⟨d2, hp2⟩ := delta_releaseAll hrel hp1
             injection h with h; subst h
-            refine inv_setLay hi hl ?_ hp2
+            refine inv_setLay hi hl.1 ?_ hp2
             rw [layIds_layoutInds] at d2
             intro j
             have := d1 j; have := d2 j
@@ -127,5 +127,60 @@ theorem inv_mlay {s s' : State} {a l kind dt : Nat} {fill : Int} (hi : Inv s)
             injection h with h; subst h
             obtain ⟨d, hp1⟩ := delta_fromLayout hr hi.1 (by simpa using hbad)
             exact inv_setSlot hi hc d hp1
+
+theorem inv_mk {s s' : State} {a kind dt it n : Nat} {v : Int} (hi : Inv s)
+    (h : step s (.mk a kind dt it n v) = .ok s') : Inv s' := by
+  unfold step at h
+  simp only at h
+  split at h
+  · cases h
+  · rename_i hc
+    simp only [Bool.or_eq_true, decide_eq_true_eq, not_or, Nat.not_le, Bool.not_eq_true] at hc
+    obtain ⟨⟨⟨⟨ha, hs⟩, _⟩, _⟩, _⟩ := hc
+    have hn := slot_none_ids hs
+    split at h
+    · injection h with h; subst h
+      have d1 := delta_alloc' s.pool (2 * n) (esz dt) (iota v (2 * n))
+      refine inv_setSlot hi ha ?_ (posAlloc _ _ _ _ hi.1)
+      rw [hn]
+      refine d1.congr ?_ (fun j => rfl)
+      intro j
+      simp only [optIds, Cont.ownIds, Cont.owned, Cont.empty, idsOf_append, idsOf_cons, idsOf_nil,
+        List.count_append, List.count_nil, Bool.false_eq_true, if_false]
+      omega
+    · split at h
+      · injection h with h; subst h
+        have d1 := delta_alloc' s.pool n (isz it) ((List.range n).map (fun (i : Nat) => ((i % 2 : Nat) : Int)))
+        have p1 := posAlloc s.pool n (isz it) ((List.range n).map (fun (i : Nat) => ((i % 2 : Nat) : Int))) hi.1
+        have d2 := delta_alloc' (alloc s.pool n (isz it) ((List.range n).map (fun (i : Nat) => ((i % 2 : Nat) : Int)))).1
+          2 (isz it) [0, (n : Int)]
+        have p2 := posAlloc _ 2 (isz it) [0, (n : Int)] p1
+        have d3 := delta_alloc' (alloc (alloc s.pool n (isz it)
+          ((List.range n).map (fun (i : Nat) => ((i % 2 : Nat) : Int)))).1 2 (isz it) [0, (n : Int)]).1 1 (isz it) [0]
+        have p3 := posAlloc _ 1 (isz it) [0] p2
+        have d4 := delta_alloc' (alloc (alloc (alloc s.pool n (isz it)
+          ((List.range n).map (fun (i : Nat) => ((i % 2 : Nat) : Int)))).1 2 (isz it) [0, (n : Int)]).1 1 (isz it)
+          [0]).1 n (esz dt) (iota v n)
+        have p4 := posAlloc _ n (esz dt) (iota v n) p3
+        refine inv_setSlot hi ha ?_ p4
+        rw [hn]
+        refine (((d1.trans d2).trans d3).trans d4).congr ?_ (fun j => rfl)
+        intro j
+        simp only [optIds, Cont.ownIds, Cont.owned, Cont.empty, idsOf_append, idsOf_cons, idsOf_nil,
+          List.count_append, List.count_nil, Bool.false_eq_true, if_false]
+        omega
+      · injection h with h; subst h
+        have d1 := delta_alloc' s.pool (if kind = 7 then n else 2 * n) (esz dt) (iota v (if kind = 7 then n else 2 * n))
+        have p1 := posAlloc s.pool (if kind = 7 then n else 2 * n) (esz dt) (iota v (if kind = 7 then n else 2 * n)) hi.1
+        have d2 := delta_alloc' (alloc s.pool (if kind = 7 then n else 2 * n) (esz dt)
+          (iota v (if kind = 7 then n else 2 * n))).1 n (isz it) (iota 0 n)
+        have p2 := posAlloc _ n (isz it) (iota 0 n) p1
+        refine inv_setSlot hi ha ?_ p2
+        rw [hn]
+        refine (d1.trans d2).congr ?_ (fun j => rfl)
+        intro j
+        simp only [optIds, Cont.ownIds, Cont.owned, Cont.empty, idsOf_append, idsOf_cons, idsOf_nil,
+          List.count_append, List.count_nil, Bool.false_eq_true, if_false]
+        omega
 
 end FeatModel.Pool
